@@ -56,7 +56,5 @@ boxed_pow1!(c09_k8_boxed_pow_k8_mset, 8, { let i: u8 = kani::any(); kani::assume
 boxed_pow1!(c09_k8_boxed_pow_k5, 5, shaped_signed_top(2) | 1, shaped_word(2), false);
 //@ name=c09_k8_boxed_pow_k0 prop=C09,C15,C11 tier=quick profile=k8 funcs="pow_montgomery_form (boxed; exponent_bits = 0)" bound="u8 words, boxed 1 limb, k=0: every odd m >= 3, every base < m, every exponent: result is one" free_bits=23
 boxed_pow1!(c09_k8_boxed_pow_k0, 0, kani::any(), kani::any(), false);
-//@ name=c09_k8_boxed_pow_k8_allm prop=C09,C15,C11 tier=thorough profile=k8 funcs="pow_montgomery_form (boxed)" bound="u8 words, boxed 1 limb, k=8: every odd m >= 3, every base < m, every 8-bit exponent" free_bits=23
-boxed_pow1!(c09_k8_boxed_pow_k8_allm, 8, kani::any(), kani::any(), true);
 //@ name=c09_k8_boxed_pow_k4 prop=C09,C15,C11 tier=thorough profile=k8 funcs="pow_montgomery_form (boxed)" bound="u8 words, boxed 1 limb, k=4 (window boundary): m = S(2)^sign|1 >= 3, base S(2) < m, every 8-bit exponent" free_bits=17
 boxed_pow1!(c09_k8_boxed_pow_k4, 4, shaped_signed_top(2) | 1, shaped_word(2), false);
